@@ -516,11 +516,13 @@ def main(tier='quick', seed=0, repo=None):
     probes = c['probes']
     budget_s = float(os.environ.get('VERIF_BUDGET_S', '900' if tier == 'thorough' else '90'))
     if tier == 'quick':
-        n_s1, n_s2, n_s3, s3_slice, instr_frac, sa_frac, max_min = 1600, 800, 16, 400, 0.08, 0.0, 150
-        fr = 0.45
-        sweep = (2, 3, 0.38)
+        n_s1, n_s2, n_s3, s3_slice, instr_frac, sa_frac, max_min = 1600, 800, 24, 400, 0.08, 0.0, 150
+        n_s3g = 72
+        fr = 0.42
+        sweep = (2, 3, 0.33)
     else:
         n_s1, n_s2, n_s3, s3_slice, instr_frac, sa_frac, max_min = 10 ** 7, 10 ** 7, 64, None, 0.25, 0.15, 300
+        n_s3g = 400
         fr = 0.5
         sweep = (3, 4, 0.4)
     stats = Stats()
@@ -579,7 +581,7 @@ def main(tier='quick', seed=0, repo=None):
                     strat.extend(rng.sample(lst, min(2, len(lst))))
                 rng.shuffle(strat)
                 # families made of inputs that are sensitive to process configuration / first-use order go in whole
-                whole = [op for f in ('dialect_diff', 'reserved_words') for op in c['families'].get(f, [])]
+                whole = [op for f in ('dialect_diff', 'reserved_words', 'raw_queries') for op in c['families'].get(f, [])]
                 pick, seen_k = [], set()
                 for op in whole + errs[:s3_slice // 2] + strat[:s3_slice // 2] + rest:
                     k = O.op_key(op)
@@ -589,17 +591,25 @@ def main(tier='quick', seed=0, repo=None):
                     if len(pick) >= s3_slice + s3_slice // 4:
                         break
                 s3_all = pick
-            ref.ensure(s3_all, count=False)
+            # S3g: many more hash seeds for the grammar only.  The LALR tables are built at import from sets of token names,
+            # so a hash-seed dependence of the grammar can be confined to a few per cent of the seeds; an interpreter that only
+            # parses mindsdb-dialect texts starts in a third of the time, so the seeds can be many.
+            g_ops = [op for f in ('raw_queries', 'dialect_diff', 'accept_reject', 'reserved_words') for op in c['families'].get(f, [])
+                     if op['k'] == 'parse' and op['d'] == 'mindsdb']
+            g_seeds = [rng.randrange(1, 1 << 32) for _ in range(n_s3g)]
+            ref.ensure(s3_all + g_ops, count=False)
             check_twice(ref, sim_pool, found)
             sim_pool.close()
             ref_pool.close()
-            for h, perm, out in run_s3(s3_seeds, s3_all, ref, repo, seed):
-                s3_runs += 1
-                s3_ops += len(perm)
-                for i, (op, rec) in enumerate(zip(perm, out)):
-                    if rec['dg'] != ref[O.op_key(op)]['dg']:
-                        s3_viol.append((h, perm, i, rec.get('obs')))
-                        break
+            for seeds_, ops_ in ((s3_seeds, s3_all), (g_seeds, g_ops)):
+                for h, perm, out in run_s3(seeds_, ops_, ref, repo, seed):
+                    s3_runs += 1
+                    s3_ops += len(perm)
+                    for i, (op, rec) in enumerate(zip(perm, out)):
+                        if rec['dg'] != ref[O.op_key(op)]['dg']:
+                            s3_viol.append((h, perm, i, rec.get('obs')))
+                            break
+            s3_seeds = s3_seeds + g_seeds
         phases.append(('s3', round(time.time() - t0, 1)))
         print('[C20] phases (seconds since start): %s' % phases, flush=True)
         if os.environ.get('VERIF_DEBUG'):
